@@ -293,7 +293,7 @@ def run_check(pid, tier, jobs, meta, seed=0, procs=None, job_timeout=None, extra
     """jobs: list of dict(name, module, scenario, kwargs, opts?) ; meta: static description for the evidence.
     extra: optional callable(report_dict) -> dict(violations=[...], inconclusive=[...], coverage={...}) for
     non-E1 parts (pathfork / CrossHair) already run by the caller."""
-    t0 = time.time()
+    t0 = (extra or {}).get("t0", time.time())
     subprocess.run([os.path.join(VERIF, "bin", "ensure_env.sh")], check=True)
     procs = procs or min(16, os.cpu_count() or 4)
     job_timeout = job_timeout or (900 if tier == "quick" else 3600)
